@@ -334,3 +334,22 @@ PROPS["C02"] = dict(
         dict(test="TestC02PBKVS", quick=dict(checks=40, shards=1, timeout=600), thorough=dict(checks=1500, shards=4, timeout=3000)),
     ],
 )
+
+PROPS["C17"] = dict(
+    pkg="c17", level="fault_enumeration",
+    technique="property-based testing with generated schedules (rapid): run-time-built archetypes on the real Run loop, instrumented gate-carrying resources "
+              "(leaves, IncMap/HashMap of leaves, nested context), Stop calls pinned to phases by gates; Stop callers' blocking points observed from goroutine state",
+    level_text="Generated scenarios: resource mix of 2-6 bindings, a 1-4 label looping program with one of 8 endings (Done, loop for ever, await for ever, failing "
+               "assert, Error label, read / write / pre-commit resource error), 0-6 Stop calls each pinned to before Run / inside a body / during commit / during a "
+               "blocked Close / after Run, Close errors, an optional second Run. Oracles: every Stop and Run return once all gates are open (wait-for-cycle detection + "
+               "10 s watchdog, goroutine dump); no commit after a Stop returned; no attempt begins after a Stop request was in flight in an earlier attempt; every "
+               "configured resource and every realised map element closed exactly once iff the run started; Run's result satisfies errors.Is for exactly the expected "
+               "sentinels (primary error and every Close error, nothing else); a second Run runs nothing and closes nothing.",
+    level_note="The point where a Stop call blocks inside Stop is read from runtime.Stack (no public seam exposes it). The order in which cleanupResources visits resources "
+               "and the race inside NewNested (nested Run started on its own goroutine) belong to the code; the harness waits for the nested context to start before the outer Run.",
+    rule="scenario drawn by rapid (mix x program x ending x stop phases x gate positions x Close errors x second Run); non-trivial = >=2 Stop calls of which >=1 was launched and "
+         "observed blocked inside Stop while a resource's Close was held at its gate; distinct by rendered scenario.",
+    runs=[
+        dict(test="TestC17Lifecycle", race={"thorough": True}, quick=dict(checks=16000, shards=16, timeout=300), thorough=dict(checks=320000, shards=16, timeout=3000)),
+    ],
+)
